@@ -41,11 +41,11 @@ fn plan(prop: &str, thorough: bool) -> Vec<(String, u64)> {
         "C09" => vec![("c09grid", all), ("hist", q(800_000, 20_000_000))],
         "C10" => vec![("hist", q(800_000, 20_000_000)), ("histf", q(300_000, 7_000_000))],
         "C11" => vec![("hist", q(800_000, 20_000_000)), ("histf", q(200_000, 5_000_000))],
-        "C12" => vec![("c12loop", all), ("hist", q(800_000, 20_000_000))],
-        "C13" => vec![("c13grid", all), ("hist", q(800_000, 20_000_000))],
+        "C12" => vec![("c12loop", all), ("hist", q(800_000, 20_000_000)), ("histf", q(300_000, 7_000_000))],
+        "C13" => vec![("c13grid", all), ("hist", q(800_000, 20_000_000)), ("histf", q(300_000, 7_000_000))],
         "C17" => vec![("hist", q(200_000, 5_000_000))],
         "C18" => vec![("c18sweep", q(100_000, 2_500_000)), ("histf", q(500_000, 12_000_000))],
-        "C20" => vec![("hist", q(60_000, 1_000_000)), ("histf", q(30_000, 500_000))],
+        "C20" => vec![("c09grid", all), ("hist", q(60_000, 1_000_000)), ("histf", q(30_000, 500_000))],
         _ => {
             eprintln!("histsim: no plan for property {prop}");
             std::process::exit(2)
